@@ -459,6 +459,16 @@ theorem invI_step {cd : Codec β} {s s' : Sys β} {st : Step} (hA : InvA cd s) (
     split at hs
     · simp at hs; subst hs; intro hc; simp at hc
     · simp at hs
+  | exitBegin =>
+    simp only [step] at hs
+    split at hs; · simp at hs
+    simp at hs; subst hs
+    intro _; right; left; simp
+  | exitEnd =>
+    simp only [step] at hs
+    split at hs
+    · simp at hs; subst hs; intro hc; simp at hc
+    · simp at hs
   | mem ms =>
     simp only [step] at hs
     split at hs; · simp at hs
